@@ -63,7 +63,9 @@ def iter_value(ex, v: Val, st, node):
             return vv
 
         return keys.n, itv, "values"
-    if isinstance(ty, (ListT, TupleT)) or ty in (list, tuple):
+    from .types import UnionT
+
+    if isinstance(ty, (ListT, TupleT)) or ty in (list, tuple) or (isinstance(ty, UnionT) and all(isinstance(m, (ListT, TupleT)) for m in ty.members)):
         sq = ex.seq_of(st, v, node)
 
         def el(k, s):
@@ -105,6 +107,7 @@ def _modified_by(ex, body, st: State, bind_target):
         created = ex.created_consts
         ex.created_consts = saved_created
     fresh_ids = {c.get_id() for c in created if c.sort() == I and str(c.decl().name()).startswith("obj")}
+    created_ids = {c.get_id() for c in created}
     names, heaps, ghosts = set(), set(), set()
     fresh_only = {}
     for s in states:
@@ -120,12 +123,61 @@ def _modified_by(ex, body, st: State, bind_target):
             if o is None or o.get_id() != a.get_id():
                 heaps.add(nm)
                 base = o if o is not None else st.arr(nm)
-                fresh_only[nm] = fresh_only.get(nm, True) and _stores_only_fresh(a, base, fresh_ids)
+                idxs = _store_indices(a, base, fresh_ids, created_ids)
+                if idxs is None or fresh_only.get(nm, []) is None:
+                    fresh_only[nm] = None
+                else:
+                    cur = fresh_only.get(nm, [])
+                    for ix in idxs:
+                        if all(ix.get_id() != c_.get_id() for c_ in cur):
+                            cur.append(ix)
+                    fresh_only[nm] = cur
         for nm, g in s.ghost.items():
             o = st.ghost.get(nm)
             if o is None or o.get_id() != g.get_id():
                 ghosts.add(nm)
-    return names, heaps, ghosts, {k for k, v in fresh_only.items() if v}
+    return names, heaps, ghosts, {k: v for k, v in fresh_only.items() if v is not None}
+
+
+def _mentions(term, ids, seen=None):
+    seen = seen if seen is not None else set()
+    stack = [term]
+    while stack:
+        x = stack.pop()
+        if x.get_id() in seen:
+            continue
+        seen.add(x.get_id())
+        if x.get_id() in ids:
+            return True
+        stack.extend(x.children())
+    return False
+
+
+def _store_indices(term, base, fresh_ids, created_ids, depth=0):
+    """`term` = base with stores at (a) objects allocated inside the probed code and (b) indices that do not depend on
+    anything created inside it (loop-invariant objects such as `self`): returns the list (b), or None if another shape"""
+    if term.get_id() == base.get_id():
+        return []
+    if depth > 300 or not z3.is_app(term):
+        return None
+    k = term.decl().kind()
+    if k == z3.Z3_OP_STORE:
+        idx = z3.simplify(term.arg(1))
+        rest = _store_indices(term.arg(0), base, fresh_ids, created_ids, depth + 1)
+        if rest is None:
+            return None
+        if idx.get_id() in fresh_ids:
+            return rest
+        if _mentions(idx, created_ids):
+            return None
+        return rest + [idx]
+    if k == z3.Z3_OP_ITE:
+        a_ = _store_indices(term.arg(1), base, fresh_ids, created_ids, depth + 1)
+        b_ = _store_indices(term.arg(2), base, fresh_ids, created_ids, depth + 1)
+        if a_ is None or b_ is None:
+            return None
+        return a_ + b_
+    return None
 
 
 def _stores_only_fresh(term, base, fresh_ids, depth=0):
@@ -175,7 +227,11 @@ def exec_for(ex, node: ast.For, st: State):
     def inv_terms(s, k):
         out = []
         for src in invs:
-            ctx = SpecCtx(ex, old=pre, cur=s, names={**s.env, kname: Val(mki(k), int), "_n": Val(mki(n), int)})
+            # old(...) in an invariant refers to the entry state of the function
+            fpre = getattr(ex, "pre_state", pre)
+            # `pre_<param>`: the value a parameter had on entry (the local may have been reassigned since)
+            pre_names = {f"pre_{nm}": v for nm, v in fpre.env.items() if not nm.startswith("$")}
+            ctx = SpecCtx(ex, old=fpre, cur=s, names={**pre_names, **s.env, kname: Val(mki(k), int), "_n": Val(mki(n), int)})
             out.append((src, ctx.eval_bool(src)))
         return out
 
@@ -198,16 +254,18 @@ def exec_for(ex, node: ast.For, st: State):
         old_arr = h.arr(nm)
         h.heap[nm] = ex.fresh(f"Hl_{nm}", old_arr.sort())
         if nm in fresh_only:
-            # the body only writes this field on objects it allocates itself: older objects keep their values
+            # the body only writes this field on objects it allocates itself and on the loop-invariant objects listed:
+            # all other older objects keep their values
             o_ = z3.Int(fresh_name("lf!o"))
-            h.assume(z3.ForAll([o_], z3.Implies(o_ < entry_alloc, h.heap[nm][o_] == old_arr[o_])))
+            excl = [o_ != ix for ix in fresh_only[nm]]
+            h.assume(z3.ForAll([o_], z3.Implies(z3.And([o_ < entry_alloc] + excl), h.heap[nm][o_] == old_arr[o_])))
     for nm in ghosts:
         if nm == "$alloc":
             a = ex.fresh("alloc", I)
             h.assume(a >= ex.alloc_term(st))
             h.ghost[nm] = a
         else:
-            h.ghost[nm] = ex.fresh(f"gl_{nm}", h.ghost[nm].sort())
+            h.ghost[nm] = ex.fresh(f"gl_{nm}", ex.gh(h, nm).sort())
     k = ex.fresh("k", I)
     it = h.fork()
     it.assume(z3.And(k >= 0, k < n))
@@ -352,7 +410,71 @@ def eval_comprehension(ex, node, st: State, kind):
 
 
 def eval_dictcomp(ex, node, st: State):
-    """{k(x): v(x) for x in xs}: only the lookup view is modelled: for every source index j, d[k(x_j)] is bound;
-    later equal keys override earlier ones, which needs injectivity of k to say d[k(x_j)] == v(x_j): reported as
-    out of reach unless the key is the loop target itself or a component of it (keys of dict.items())."""
-    raise Unsupported("dict comprehension", node)
+    """{k: f(v) for k, v in d.items()}  ->  fresh dict with the same keys in the same order and d2[k] == f(d[k]).
+
+    Only this shape is modelled (key expression is the key variable itself); anything else is out of reach.  The value
+    expression is evaluated once for a symbolic key; constants it creates are skolemised into functions of the key."""
+    if len(node.generators) != 1 or node.generators[0].ifs or node.generators[0].is_async:
+        raise Unsupported("dict comprehension shape", node)
+    gen = node.generators[0]
+    tgt = gen.target
+    it = gen.iter
+    if not (isinstance(tgt, ast.Tuple) and len(tgt.elts) == 2 and all(isinstance(e, ast.Name) for e in tgt.elts)
+            and isinstance(it, ast.Call) and isinstance(it.func, ast.Attribute) and it.func.attr == "items" and not it.args
+            and isinstance(node.key, ast.Name) and node.key.id == tgt.elts[0].id):
+        raise Unsupported("dict comprehension shape (only {k: f(v) for k, v in d.items()})", node)
+    d = ex.ev(it.func.value, st)
+    if not isinstance(T.strip_opt(d.ty), DictT):
+        raise Unsupported("dict comprehension over a non-dict", node)
+    doid = ex.as_ref(st, d, node)
+    keys = ex.keys_of(st, d, node)
+    kvar = z3.Const(fresh_name("dk"), V)
+    body = st.fork()
+    has_old = st.arr("$dhas")[doid]
+    map_old = st.arr("$dmap")[doid]
+    body.assume(has_old[kvar])
+    base_pc = len(body.pc)
+    saved_created = ex.created_consts
+    ex.created_consts = []
+    ex.frames.append([])
+    try:
+        kval = Val(kvar, getattr(d.ty, "k", None))
+        vval = Val(map_old[kvar], getattr(d.ty, "v", None))
+        ex.assume_type(body, kval)
+        ex.assume_type(body, vval)
+        body.env[tgt.elts[0].id] = kval
+        body.env[tgt.elts[1].id] = vval
+        val = ex.ev(node.value, body)
+        outs = ex.frames[-1]
+    finally:
+        ex.frames.pop()
+        created = ex.created_consts
+        ex.created_consts = saved_created
+        if saved_created is not None:
+            saved_created.extend(created)
+    if outs:
+        raise Unsupported("dict comprehension whose value expression may raise", node)
+    for nm, arr in body.heap.items():
+        old = st.heap.get(nm)
+        if old is None:
+            old = st.heap0.get(nm)
+        if old is not None and old.get_id() != arr.get_id():
+            raise Unsupported("dict comprehension whose value expression allocates or writes the heap", node)
+    subs = []
+    for c in created:
+        f = z3.Function(fresh_name("skd_" + str(c.decl().name()).split("!")[0]), V, c.sort())
+        subs.append((c, f(kvar)))
+
+    def sk(t):
+        return z3.substitute(t, subs) if subs else t
+
+    facts = body.pc[base_pc:]
+    if facts:
+        st.assume(z3.ForAll([kvar], z3.Implies(has_old[kvar], sk(z3.And(facts)))))
+    out = ex.new_object(st, dict, DictT(getattr(d.ty, "k", None), val.ty))
+    oid = V.rid(out.t)
+    st.heap["$dhas"] = z3.Store(st.arr("$dhas"), oid, has_old)
+    st.heap["$dmap"] = z3.Store(st.arr("$dmap"), oid, z3.Lambda([kvar], sk(val.t)))
+    st.heap["$klen"] = z3.Store(st.arr("$klen"), oid, keys.n)
+    st.heap["$kel"] = z3.Store(st.arr("$kel"), oid, keys.arr)
+    return out
